@@ -81,6 +81,9 @@ def run_case(spec):
   xc_an, yc_an = tot(exp, 'cost', analysed)
   xc_t, yc_t = tot(exp, 'cost', (1,))
   rr = tbrref.Ref(xr_pre, yr_pre, xr_an, yr_an)
+  if rr.zero_resid or rr.degenerate:
+    return {'nontrivial': False, 'fp': util.fp(desc), 'classes': ['zero-residual-variance'], 'counters': {'zero_variance_inputs': 1},
+            'violations': [], 'sample': None}
   kappa = 1.0 + (rr.xbar / max(float(np.std(xr_pre)), 1e-300)) ** 2
   rt = 1e-9 + 2e-15 * kappa
   vol = float(np.abs(yr_an).sum() + np.abs(yr_pre).mean() * len(yr_an))
@@ -153,7 +156,7 @@ def run_case(spec):
       add('fixed-probability', 'fixed-probability', 'probability=%.10g, P(effect/cost > %g)=%.10g' % (float(row['probability']), thr_base, p_want))
   elif label == 'variable' and want_label == 'variable':
     rc = tbrref.Ref(xc_pre, yc_pre, xc_t, yc_t)
-    z = abs(float(rc.loc[-1]) / float(rc.scale[-1]))
+    z = 0.0 if (rc.zero_resid or rc.degenerate) else abs(float(rc.loc[-1]) / float(rc.scale[-1]))
     if z < 8:
       counters['skipped_weak_cost'] += 1
       return {'nontrivial': False, 'fp': util.fp(desc), 'classes': [scenario, 'weak-cost'], 'counters': dict(counters),
